@@ -4,6 +4,9 @@
 #include "att_model.hpp"
 
 #include <memory>
+#ifdef VG_FUZZ
+#include <fuzzer/FuzzedDataProvider.h>
+#endif
 
 namespace vg {
     std::vector< ServerIf* >& servers()
@@ -36,12 +39,19 @@ namespace {
     };
 
     // ------------------------------------------------------------------------------------------ generation
+    int rnd( int lo, int hi );
     template < class T >
     T pick( const std::vector< T >& v )
     {
-        return v[ *verif::range< std::size_t >( 0, v.size() - 1 ) ];
+        return v[ static_cast< std::size_t >( rnd( 0, static_cast< int >( v.size() ) - 1 ) ) ];
     }
+#ifdef VG_FUZZ
+    // libFuzzer build: every choice of the generator is decoded from the fuzzer's bytes
+    FuzzedDataProvider* g_fdp = nullptr;
+    int  rnd( int lo, int hi ) { return g_fdp->ConsumeIntegralInRange< int >( lo, hi ); }
+#else
     int  rnd( int lo, int hi ) { return *verif::range< int >( lo, hi ); }
+#endif
     bool chance( int percent ) { return rnd( 0, 99 ) < percent; }
 
     bytes rnd_bytes( int lo, int hi )
@@ -477,6 +487,19 @@ namespace {
             return o;
         }
     };
+
+#ifdef VG_FUZZ
+    Case decode_case()
+    {
+        Case c;
+        c.decl = rnd( 0, static_cast< int >( vg::servers().size() ) - 1 );
+        Gen       g( vg::servers()[ c.decl ]->db(), verif::property() );
+        const int n = rnd( 0, static_cast< int >( verif::opt_int( "max_ops", 40 ) ) );
+        for ( int i = 0; i != n && g_fdp->remaining_bytes() != 0; ++i )
+            c.ops.push_back( g.op() );
+        return c;
+    }
+#endif
 
     rc::Gen< Case > gen_case()
     {
@@ -1149,6 +1172,36 @@ namespace {
     }
 }
 
+#ifdef VG_FUZZ
+extern "C" int LLVMFuzzerTestOneInput( const std::uint8_t* data, std::size_t size )
+{
+    static bool init = false;
+    if ( !init )
+    {
+        init = true;
+        auto& S = verif::Session::get();
+        S.property = std::getenv( "VERIF_FUZZ_PROPERTY" ) ? std::getenv( "VERIF_FUZZ_PROPERTY" ) : "C01";
+        if ( std::getenv( "VERIF_FUZZ_EXCLUDE" ) )
+            S.opts[ "exclude" ] = std::getenv( "VERIF_FUZZ_EXCLUDE" );
+    }
+    FuzzedDataProvider fdp( data, size );
+    g_fdp = &fdp;
+    const Case c = decode_case();
+    if ( std::getenv( "VERIF_FUZZ_DECODE" ) )
+        std::cout << to_text( c );
+    verif::Report rep;
+    try
+    {
+        run( c, rep );
+    }
+    catch ( const verif::failure& f )
+    {
+        std::cerr << "VERIF-FUZZ-VIOLATION oracle=" << f.oracle << " " << f.msg << "\n" << to_text( c );
+        __builtin_trap();
+    }
+    return 0;
+}
+#else
 int main( int argc, char** argv )
 {
     if ( vg::servers().empty() )
@@ -1163,3 +1216,4 @@ int main( int argc, char** argv )
     h.run       = run;
     return verif::run_main( argc, argv, h );
 }
+#endif
